@@ -35,14 +35,14 @@ type Ctx struct {
 	tmpDirs  []string
 	rootDirs []string
 	Skipped  string
-	Params  map[string]int
-	Draws   []Draw
-	pos     int
-	Obs     []Obs
-	Covers  []string
-	Classes []string
-	Fail    *Failure
-	CrashOK bool
+	Params   map[string]int
+	Draws    []Draw
+	pos      int
+	Obs      []Obs
+	Covers   []string
+	Classes  []string
+	Fail     *Failure
+	CrashOK  bool
 }
 
 type stop struct{}
